@@ -463,6 +463,10 @@ def run_fuzz(bins, meta, tier, seed, workdir, known_path, seconds, nprocs, maxle
             shutil.copy(os.path.join(seeds, f), os.path.join(corpus, f))
     procs = []
     env = env_for(workdir, tier, known_path)
+    # Debian's libFuzzer runtime is built against libstdc++ without _GLIBCXX_SANITIZE_VECTOR; the linker may pick its
+    # un-annotated std::vector<unsigned char> members, which makes ASan's container-overflow check report false
+    # positives in the fuzz binary only. The random driver keeps the check.
+    env["ASAN_OPTIONS"] = env["ASAN_OPTIONS"].replace("detect_container_overflow=1", "detect_container_overflow=0")
     for i in range(nprocs):
         cmd = [bins["fuzz"], "-seed=%d" % (seed * 1000 + i + 1), "-max_len=%d" % maxlen, "-timeout=60", "-rss_limit_mb=4096",
                "-max_total_time=%d" % seconds, "-artifact_prefix=%s/art.%d." % (workdir, i), "-print_final_stats=1",
